@@ -429,8 +429,9 @@ impl<'a> Gen<'a> {
             Focus::Protocol => [130, 110, 100, 70, 40, 25, 160, 40, 15, 25, 10, 6, 6],
             Focus::Supply => [80, 30, 50, 100, 8, 30, 260, 10, 30, 3, 0, 0, 0],
             Focus::Links => [170, 100, 130, 30, 60, 90, 120, 50, 5, 25, 50, 3, 0],
-            // no stalled readers or lanes, no failing lanes: every party can always make progress
-            Focus::Inactivity => [110, 70, 90, 0, 25, 25, 190, 20, 0, 0, 160, 0, 0],
+            // no stalled readers, no failing lanes; a lane may stop taking requests for a while (the read task
+            // then blocks in the middle of delivering a command)
+            Focus::Inactivity => [110, 70, 90, 0, 25, 25, 180, 20, 35, 0, 160, 0, 0],
         };
         for _ in 0..len {
             let r = self.rng.usize_below(n);
